@@ -48,7 +48,7 @@ void cfg_desc(const wcfg_t *c, char *out, size_t n)
 {
     snprintf(out, n, "%s%s%s/%s/%04x%s%s%s%s", ver_name(c->ver), c->cver ? "+c" : "", c->cver ? ver_name(c->cver) : "",
         kx_name(c->kx), c->suite, c->client_auth ? "/cauth" : "", c->early_data == 2 ? (c->early_send ? "/early-off-at-server+0rtt" : "/early-off-at-server") : c->early_data ? (c->early_send ? "/early+0rtt" : "/early") : "",
-        c->resume13 ? "/tick+resumed" : c->tickets == 2 ? "/tick-asked-only" : c->tickets ? "/tick" : "", c->bad_server_cert ? "/badcert" : c->bogus_psk ? "/unknown-psk-offered" : "");
+        c->resume13 ? "/tick+resumed" : c->tickets == 2 ? "/tick-asked-only" : c->tickets ? "/tick" : "", c->bad_server_cert ? "/badcert" : c->bogus_psk ? "/unknown-psk-offered" : c->hrr ? "/hrr" : "");
 }
 
 static uint16_t default_suite(int ver, int kx)
@@ -277,6 +277,14 @@ int world_new_sessions(world_t *w)
     if (c->ems_off)
     {
         co.extendedMasterSecret = -1;
+    }
+    if (c->hrr)
+    {
+        uint16_t cg[2] = { namedgroup_secp256r1, namedgroup_secp384r1 }, sg[1] = { namedgroup_secp384r1 };
+        if (matrixSslSessOptsSetKeyExGroups(&co, cg, 2, 1) < 0 || matrixSslSessOptsSetKeyExGroups(&so, sg, 1, 1) < 0)
+        {
+            return -1;
+        }
     }
     if (c->early_data == 1)
     {
